@@ -50,7 +50,8 @@ int cp_bdpe_gen(bdpe_t pub, bdpe_t prv, dig_t block, size_t bits) {
 
 		/* Make sure that block size is prime. */
 		bn_set_dig(t, block);
-		if (bn_is_prime_basic(t) == 0) {
+		if (bn_is_prime_basic(t) == 0 || block == 2) {
+			/* No odd prime q has gcd(2, q - 1) = 1: the search below would not end. */
 			RLC_THROW(ERR_NO_VALID);
 		}
 
